@@ -43,6 +43,9 @@ def build(kind, path, behaviours, cfg, order, maxc):
             if b % 7 in (1, 2, 5):
                 brs.append({"body": body, "result": {"raw_last": True}})
                 continue
+        elif beh == "fail" and b % 3 == 2:
+            # the branch function itself raises, incl. the SDK's own invocation-level error classes: still one failed item of the batch
+            body = [{"k": "gate", "name": g}, {"k": "raise", "cls": ["InvocationError", "StepInterruptedError", "UserErr"][(b // 3 + n) % 3], "msg": "f%d" % b}]
         elif beh == "fail":
             body = [{"k": "step", "script": [{"do": "fail", "cls": "ValueError", "msg": "f%d" % b, "gate": g}], "retry": {"kind": "preset", "name": "none"}}]
         elif beh == "wait":
